@@ -134,6 +134,10 @@ package serializers
 //@   inline
 //@   ensures [C02:cdx:component:nil] (result == nil) <==> (n == nil)
 //@   ensures [C02:cdx:component:scalars] n != nil ==> cdxCompOf(result, n)
+//@   ensures [C02:cdx:component:hashes] n != nil ==> result.Hashes != nil && (forall j int :: 0 <= j && j < len(*result.Hashes) ==> (exists k int32 :: (k in n.Hashes) && (*result.Hashes)[j].Value == n.Hashes[k]))
+//@   invariant L1: [C02:inv] c != nil && fresh(c) && c.Hashes != nil && fresh(c.Hashes) && (forall j int :: 0 <= j && j < len(*c.Hashes) ==> (exists k int32 :: (k in _V) && (k in n.Hashes) && (*c.Hashes)[j].Value == n.Hashes[k]))
+//@   invariant L2: [C02:inv] c.Hashes != nil && fresh(c.Hashes) && c.Hashes != c.ExternalReferences && allocated(arr(*c.Hashes)) && (forall j int :: 0 <= j && j < len(*c.Hashes) ==> (exists k int32 :: (k in n.Hashes) && (*c.Hashes)[j].Value == n.Hashes[k]))
+//@   invariant L3: [C02:inv] c.Hashes != nil && fresh(c.Hashes) && c.Hashes != addr_hashList && c.Hashes != c.ExternalReferences && allocated(arr(*c.Hashes)) && (cap(hashList) == 0 || arr(*c.Hashes) != arr(hashList)) && (forall j int :: 0 <= j && j < len(*c.Hashes) ==> (exists k int32 :: (k in n.Hashes) && (*c.Hashes)[j].Value == n.Hashes[k]))
 //@   ensures [C02:cdx:component:extrefs] n != nil ==> cdxCompRefsOf(result, n)
 //@   ensures [C02:cdx:component:extrefHashes] n != nil ==> cdxCompRefHashesOf(result, n)
 //@   invariant L2: [C02:inv] c != nil && fresh(c) && c.ExternalReferences != nil && fresh(c.ExternalReferences) && len(*c.ExternalReferences) == _i
